@@ -453,6 +453,7 @@ def run(cr: CheckRun) -> None:
             what = bytes(rep["bytes"]).hex() if rep.get("bytes") else f"program seed {rep['seed']}"
             cr.violation(f"{clause}:{impl}:{variant}", f"{impl} core, {what}: the run '{variant}' ends in {got}, the fresh run from the same architectural state in {ref}", rep)
     cr.cov["programs"] = nrec
+    cr.cov["traces_validated_against_impl"] = nrec
     cr.cov["evaluations"] = nrec
     cr.cov["distinct_nontrivial"] = ngroups
     cr.cov["explained_by_semantics"] = {"fresh_python_runs": sum(r[4] for r in results), "not_explained (C04 findings)": sum(r[5] for r in results)}
